@@ -137,7 +137,11 @@ def run_ptera(fn, src, recipe, script, focus, handlers, delivery):
                             # documented way to decline: filter the pipeline before override()
                             p.filter(lambda d, ufn=ufn: ufn(d) is not ptera.ABSENT).override(ufn)
                         elif kind == "ctx":
-                            p.koverride(lambda ufn=ufn, **kw: ufn(kw))
+                            if h[2] % 2:
+                                # koverride at the end of an operator pipeline
+                                p.kfilter(lambda **kw: True).koverride(lambda ufn=ufn, **kw: ufn(kw))
+                            else:
+                                p.koverride(lambda ufn=ufn, **kw: ufn(kw))
                         elif kind == "const":
                             p.override(h[2])
                         else:
